@@ -105,22 +105,26 @@ type Struct struct {
 type EnumValue struct {
 	Name     string
 	Explicit *int // nil: implicit numbering
+	Annots   []Annot
 }
 
 type Enum struct {
 	Name   string
 	Values []*EnumValue
+	Annots []Annot
 }
 
 type Typedef struct {
-	Name string
-	Type *Type
+	Name   string
+	Type   *Type
+	Annots []Annot
 }
 
 type Const struct {
-	Name  string
-	Type  *Type
-	Value *Lit
+	Name   string
+	Type   *Type
+	Value  *Lit
+	Annots []Annot
 }
 
 type Method struct {
@@ -129,23 +133,45 @@ type Method struct {
 	Ret    *Type // nil = void
 	Args   []*Field
 	Throws []*Field
+	Annots []Annot
 }
 
 type Service struct {
 	Name    string
 	Extends string
 	Methods []*Method
+	Annots  []Annot
 }
 
 type Op struct {
-	Name string
-	Type *Type
+	Name   string
+	Type   *Type
+	Annots []Annot
 }
 
 type Scope struct {
 	Name   string
 	Prefix string // "" = none
 	Ops    []*Op
+	Annots []Annot
+}
+
+// AnnotSuffix is the canonical rendering of an annotation list appended to a one-line canonical
+// entry (empty when there are none).
+func AnnotSuffix(n int, at func(i int) (string, string)) string {
+	if n == 0 {
+		return ""
+	}
+	p := make([]string, n)
+	for i := 0; i < n; i++ {
+		k, v := at(i)
+		p[i] = k + "=" + v
+	}
+	return " @(" + strings.Join(p, ",") + ")"
+}
+
+func annSuffix(a []Annot) string {
+	return AnnotSuffix(len(a), func(i int) (string, string) { return a[i].Name, a[i].Value })
 }
 
 type NS struct{ Scope, Value string }
@@ -193,7 +219,7 @@ type CEnum struct {
 	Values []string // name=value
 }
 type CMethod struct {
-	Name   string
+	Name   string // with the annotation suffix, if any
 	Oneway bool
 	Ret    string
 	Args   []CField
@@ -261,9 +287,9 @@ func Expect(f *File) *CFile {
 		case d.NS != nil:
 			c.Namespaces = append(c.Namespaces, d.NS.Scope+" "+d.NS.Value)
 		case d.Typedef != nil:
-			c.Typedefs = append(c.Typedefs, d.Typedef.Name+"="+d.Typedef.Type.String())
+			c.Typedefs = append(c.Typedefs, d.Typedef.Name+"="+d.Typedef.Type.String()+annSuffix(d.Typedef.Annots))
 		case d.Enum != nil:
-			e := CEnum{Name: d.Enum.Name}
+			e := CEnum{Name: d.Enum.Name + annSuffix(d.Enum.Annots)}
 			prev := -1
 			for _, v := range d.Enum.Values {
 				val := prev + 1
@@ -271,11 +297,11 @@ func Expect(f *File) *CFile {
 					val = *v.Explicit
 				}
 				prev = val
-				e.Values = append(e.Values, fmt.Sprintf("%s=%d", v.Name, val))
+				e.Values = append(e.Values, fmt.Sprintf("%s=%d", v.Name, val)+annSuffix(v.Annots))
 			}
 			c.Enums = append(c.Enums, e)
 		case d.Const != nil:
-			c.Consts = append(c.Consts, d.Const.Name+":"+d.Const.Type.String()+"="+d.Const.Value.Canon())
+			c.Consts = append(c.Consts, d.Const.Name+":"+d.Const.Type.String()+"="+d.Const.Value.Canon()+annSuffix(d.Const.Annots))
 		case d.Struct != nil:
 			s := CStruct{Name: d.Struct.Name}
 			for _, fl := range d.Struct.Fields {
@@ -293,9 +319,9 @@ func Expect(f *File) *CFile {
 				c.Unions = append(c.Unions, s)
 			}
 		case d.Service != nil:
-			s := CService{Name: d.Service.Name, Extends: d.Service.Extends}
+			s := CService{Name: d.Service.Name + annSuffix(d.Service.Annots), Extends: d.Service.Extends}
 			for _, m := range d.Service.Methods {
-				cm := CMethod{Name: m.Name, Oneway: m.Oneway}
+				cm := CMethod{Name: m.Name + annSuffix(m.Annots), Oneway: m.Oneway}
 				if m.Ret != nil {
 					cm.Ret = m.Ret.String()
 				}
@@ -309,9 +335,9 @@ func Expect(f *File) *CFile {
 			}
 			c.Services = append(c.Services, s)
 		case d.Scope != nil:
-			s := CScope{Name: d.Scope.Name, Prefix: d.Scope.Prefix, Vars: PrefixVars(d.Scope.Prefix)}
+			s := CScope{Name: d.Scope.Name + annSuffix(d.Scope.Annots), Prefix: d.Scope.Prefix, Vars: PrefixVars(d.Scope.Prefix)}
 			for _, o := range d.Scope.Ops {
-				s.Ops = append(s.Ops, o.Name+":"+o.Type.String())
+				s.Ops = append(s.Ops, o.Name+":"+o.Type.String()+annSuffix(o.Annots))
 			}
 			c.Scopes = append(c.Scopes, s)
 		}
@@ -487,7 +513,7 @@ func Render(f *File, st Style) string {
 		case d.NS != nil:
 			w.WriteString("namespace " + d.NS.Scope + " " + d.NS.Value + r.eos())
 		case d.Typedef != nil:
-			w.WriteString("typedef " + d.Typedef.Type.String() + " " + d.Typedef.Name + r.eos())
+			w.WriteString("typedef " + d.Typedef.Type.String() + " " + d.Typedef.Name + r.annots(d.Typedef.Annots) + r.eos())
 		case d.Enum != nil:
 			w.WriteString("enum " + d.Enum.Name + " {\n")
 			for i, v := range d.Enum.Values {
@@ -495,14 +521,15 @@ func Render(f *File, st Style) string {
 				if v.Explicit != nil {
 					w.WriteString(" = " + st.integer(int64(*v.Explicit)))
 				}
+				w.WriteString(r.annots(v.Annots))
 				if st.Sep != "" && (i < len(d.Enum.Values)-1 || st.Sep == ";") {
 					w.WriteString(st.Sep)
 				}
 				w.WriteString("\n")
 			}
-			w.WriteString("}" + r.eos())
+			w.WriteString("}" + r.annots(d.Enum.Annots) + r.eos())
 		case d.Const != nil:
-			w.WriteString("const " + d.Const.Type.String() + " " + d.Const.Name + " = " + r.lit(d.Const.Value) + r.eos())
+			w.WriteString("const " + d.Const.Type.String() + " " + d.Const.Name + " = " + r.lit(d.Const.Value) + r.annots(d.Const.Annots) + r.eos())
 		case d.Struct != nil:
 			if st.Comment == "doc" {
 				w.WriteString("/**@ struct doc */\n")
@@ -541,12 +568,13 @@ func Render(f *File, st Style) string {
 					w.WriteString(" throws (" + strings.TrimSpace(r.fields(m.Throws, false, "")) + ")")
 				}
 				r.st.OneLine = old
+				w.WriteString(r.annots(m.Annots))
 				if st.Sep != "" && (i < len(d.Service.Methods)-1 || st.Sep == ";") {
 					w.WriteString(st.Sep)
 				}
 				w.WriteString("\n")
 			}
-			w.WriteString("}" + r.eos())
+			w.WriteString("}" + r.annots(d.Service.Annots) + r.eos())
 		case d.Scope != nil:
 			w.WriteString("scope " + d.Scope.Name)
 			if d.Scope.Prefix != "" {
@@ -554,9 +582,9 @@ func Render(f *File, st Style) string {
 			}
 			w.WriteString(" {\n")
 			for _, o := range d.Scope.Ops {
-				w.WriteString("  " + o.Name + ": " + o.Type.String() + "\n")
+				w.WriteString("  " + o.Name + ": " + o.Type.String() + r.annots(o.Annots) + "\n")
 			}
-			w.WriteString("}" + r.eos())
+			w.WriteString("}" + r.annots(d.Scope.Annots) + r.eos())
 		}
 		w.WriteString("\n")
 	}
